@@ -157,8 +157,8 @@ def make_step(nb, restricted, finite):
         rules=STEP_RULES,
         contract=FRESH + ghost_requires(nb) + r"""
 __CPROVER_requires(i < gsize)
-__CPROVER_assigns(__CPROVER_object_whole(m_receivers), __CPROVER_object_whole(m_receivers_count), __CPROVER_object_whole(m_receivers_distance),
-                  __CPROVER_object_whole(m_receivers_weight), __CPROVER_object_whole(m_donors), __CPROVER_object_whole(m_donors_count))
+/* write frame: the node's own rows of the receiver tables (cell by cell) + the donor table */
+__CPROVER_assigns(RCNT(i), %(ROWCELLS)s, __CPROVER_object_whole(m_donors), __CPROVER_object_whole(m_donors_count))
 __CPROVER_ensures(i == G ==> %(ROUTED)s)
 /* frame: the rows of every other node are untouched */
 __CPROVER_ensures(i != G ==> (RCNT(G) == __CPROVER_old(RCNT(G)) && %(SAME)s))
@@ -167,6 +167,7 @@ __CPROVER_ensures(CNT(GR) >= __CPROVER_old(CNT(GR)))
 __CPROVER_ensures((GS < __CPROVER_old(CNT(GR)) && GS < DON_W) ==> DON(GR, GS) == __CPROVER_old(DON(GR, GS)))
 __CPROVER_ensures((__CPROVER_old(CNT(GR)) <= GS && GS < CNT(GR) && GS < DON_W) ==> (DON(GR, GS) == i && !TERMINAL(i) && %(INREC)s))
 """ % dict(ROUTED=routed(nb, finite),
+           ROWCELLS=", ".join("REC(i, %d), DIST(i, %d), WGT(i, %d)" % (k, k, k) for k in range(nb)),
            SAME=conj("REC(G, %k) == __CPROVER_old(REC(G, %k)) && SAME_D(DIST(G, %k), __CPROVER_old(DIST(G, %k))) && SAME_D(WGT(G, %k), __CPROVER_old(WGT(G, %k)))", nb),
            INREC=disj("%k < RCNT(i) && REC(i, %k) == GR", nb)),
     )
@@ -246,7 +247,7 @@ def groups(nb, tier="quick"):
             entry="h_mrouter_step", enforce="mrouter_step",
             replace=["grid_neighbors", "fsl_div_abs", "fsl_div_unit", "fsl_pow_r" if restricted else "fsl_pow"],
             unwindset={("mrouter_step", 0): nb + 1, ("mrouter_step", 1): nb + 1}, defines=defines(nb),
-            backend="sat", timeout=900, min_obligations=50, tier=tier,
+            backend="sat", timeout=900, min_obligations=50, tier=tier, replay="replay/routing.cpp",
             clause={"structure": "C05 at one node: own single receiver iff terminal or no strictly lower unmasked neighbour; otherwise the receiver slots are, "
                                  "as a multiset of (node, distance), exactly the strictly lower unmasked neighbour slots; frame; donor entries",
                     "weights_normal_range": "C05 weights in [0,1] (finite) whenever slope^p stays in the normal range [DBL_MIN, 1e300] -- the complement of known finding F5",
@@ -258,7 +259,7 @@ def groups(nb, tier="quick"):
         name="mrouter.loop.nb%d" % nb, units=[is_masked, is_base_level, step, outer],
         harness=harness("mrouter", nb), entry="h_mrouter", enforce="mrouter",
         replace=["mrouter_step", "fsl_fill_sz"], loop_contracts=True, defines=defines(nb),
-        backend="sat", timeout=900, min_obligations=50, tier=tier,
+        backend="sat", timeout=900, min_obligations=50, tier=tier, replay="replay/routing.cpp",
         clause="whole multiple-direction sweep (any number of nodes): C05 receiver structure at every node; every donor entry d of row r has r among "
                "its receivers (C06 soundness); <= %d neighbours" % nb))
     return gs
